@@ -2,7 +2,10 @@
 package world
 
 import (
+	"fmt"
 	"os"
+
+	"github.com/go-logr/logr/funcr"
 
 	"sigs.k8s.io/controller-runtime/pkg/client"
 
@@ -32,6 +35,10 @@ func New(base string, cli client.Client, opt pipeline.Options) (*World, error) {
 		cli = pipeline.NewClient()
 	}
 	opt.Dir = dir
+	if os.Getenv("VERIF_LOG") != "" && opt.Logger == nil {
+		l := funcr.New(func(prefix, args string) { fmt.Fprintln(os.Stderr, "LOG", dir[len(dir)-6:], prefix, args) }, funcr.Options{Verbosity: 3})
+		opt.Logger = &l
+	}
 	if err := opt.Prepare(); err != nil {
 		return nil, err
 	}
